@@ -735,8 +735,8 @@ def iter_run_spec(project, oracle_props, nq=4000, nt=200000):
             "exhaustive": {"quick": 4, "thorough": 6}}
 
 
-def cache_run_spec(project, oracle_props, nq=250, nt=20000):
-    return {"kind": "cache", "n": {"quick": nq, "thorough": nt}, "stress": {"quick": 10, "thorough": 400},
+def cache_run_spec(project, oracle_props, nq=250, nt=3000):
+    return {"kind": "cache", "n": {"quick": nq, "thorough": nt}, "stress": {"quick": 10, "thorough": 150},
             "project": project, "oracle_props": oracle_props}
 
 
@@ -803,6 +803,8 @@ PROPS = {
         "runs": [
             {"kind": "parse", "mode": "c02", "n": {"quick": 6000, "thorough": 300000}, "project": proj_parse_segments,
              "exhaustive": {"quick": 4, "thorough": 6}, "oracle_props": ["C02"], "rule": PARSE_RULE},
+            # through Prepare and the driver: pass-through text with literals / comments (twins differing only inside them)
+            bind_run(proj_bind_c05, ["C02"], nq=3000, nt=100000),
         ],
     },
     "C19": {
